@@ -196,7 +196,7 @@ async fn child_reopen(file: PathBuf, policy: AckPolicy, ntopics: usize, out: Pat
         let mut ended = false;
         let mut extra = vec![];
         loop {
-            match tokio::time::timeout(Duration::from_secs(30), rx.next()).await {
+            match tokio::time::timeout(Duration::from_secs(240), rx.next()).await {
                 Ok(Some(ev)) => match ev {
                     StreamEvent::ReplayStarted { total_operations } => started = Some(total_operations),
                     StreamEvent::ReplayEnded => ended = true,
